@@ -368,7 +368,7 @@ func (c *c19Case) Run(ctx *core.Ctx) {
 
 var (
 	c19AttrVals = []string{`"a"`, `"a b"`, `'say "hi"'`, `"it's"`, `"a &amp; b"`, `"a &lt; b"`, `"x < y && z"`, "\"multi\nline\"", `""`, `"{{ a < b }}"`, `'{"k": "v"}'`, `"&amp;lt;"`, `" padded "`, `"&amp;#39;x"`, `"&amp;#x27;"`, `"a&amp;b=c&amp;d_e"`, `"&amp;&amp;amp;"`, `"&#38;copy;"`}
-	c19Texts    = []string{"t", "&amp;#39;", "a &amp; b", "{{ a < b && c > d }}", "x {{ y }} z", "&lt;b&gt;", "two  spaces", "a {{ '<' }} b", "&amp;amp;"}
+	c19Texts    = []string{"t", "&amp;#39;", "a &amp; b", "{{ a < b && c > d }}", "x {{ y }} z", "&lt;b&gt;", "two  spaces", "a {{ '<' }} b", "&amp;amp;", "{{ a }} &lt;b&gt; {{ c }}", "{{ a }}&lt;/p&gt;{{ c }} &amp;amp; {{ d }}", "{{ a }} &amp;amp;lt; {{ c }}"}
 )
 
 func c19Generate(tier string, emit func(src string)) {
@@ -443,6 +443,11 @@ func c19Generate(tier string, emit func(src string)) {
 		`<p>a&nbsp;</p>`, `<p>&nbsp;a</p>`, `<p title="&nbsp;x&nbsp;">t</p>`, `<p>a&nbsp;&nbsp;b</p>`, `<b>x</b>&nbsp;<i>y</i>`,
 		`<html-view>x</html-view>`, `<htmlx a="b">k</htmlx><p>y</p>`,
 		`<script>var s = "</html>";</script>`, `<p>a</p><script>var s = "</html>";</script>`,
+		`<svg><style>a&lt;b c</style></svg>`, `<math><mi>x</mi><annotation-xml><script>a&lt;b</script></annotation-xml></math>`, `<svg><title>a&lt;b</title><desc>&amp;lt;</desc></svg>`,
+		"\u00a0<html><body><p>x</p></body></html>", "\u00a0<!DOCTYPE html><html><body><p>x</p></body></html>",
+		`<!-- c --><!DOCTYPE html PUBLIC "-//W3C//DTD HTML 4.01//EN" "http://www.w3.org/TR/html4/strict.dtd"><html><body><p>a</p></body></html>`, `<!-- c --><!DOCTYPE html SYSTEM "about:legacy-compat"><html><body><p>a</p></body></html>`,
+		`<!DOCTYPE html PUBLIC "-//W3C//DTD HTML 4.01//EN" "http://www.w3.org/TR/html4/strict.dtd"><html><body><p>a</p></body></html>`,
+		`<p>{{ a &amp;lt b }}</p>`, `<p>{{ a &amp;amp b }} &amp;amp c</p>`, `<p>{{ a &amp;&amp; b &amp;y }}</p>`,
 	} {
 		emit(src)
 	}
